@@ -45,7 +45,11 @@ def _nontrivial(spec, ev):
 
 
 def prove(ctx):
-    _sched.prove(ctx, MODULES)
+    # the job-side protocol read from the source (Generated/RunnerSrc.lean, obligations Properties/C10Src.lean) belongs to this property too
+    from ..translate import runsrc
+    _ok, msg, _info = runsrc.generate(common.REPO, common.LEAN)
+    ctx.notes.append(f"translator(runsrc): {msg}")
+    _sched.prove(ctx, MODULES + ["XpmVerif.Properties.C10Src"])
 
 
 # ------------------------------------------------------------------------------------ (a') real API
